@@ -504,7 +504,8 @@ def sys_case(rng, cid, steps=None, nprog=None, big=False, script=None, mode=None
             script.append(rng.weighted([("nothing", 6), ("edit-src", 3), ("edit-inc", 3), ("touch-inh", 2), ("touch-src", 2),
                                         ("touch-inc", 1), ("simul-restart", 2), ("restart", 1), ("equal-inc", 1),
                                         ("simul-norestart", 1), ("edit-parent-inc", 2), ("damage", 2), ("foreign", 2), ("moved", 1), ("badload", 1),
-                                        ("parent-noreload", 3), ("parent-drops-pragma", 3), ("parent-refused", 3), ("shadow-inc", 3)]))
+                                        ("parent-noreload", 3), ("parent-drops-pragma", 3), ("parent-refused", 3), ("shadow-inc", 3),
+                                        ("grandparent-reloaded", 2)]))
     for act in script:
         t += 1
         which = None
@@ -638,6 +639,22 @@ def sys_case(rng, cid, steps=None, nprog=None, big=False, script=None, mode=None
                     L.append(fam_line)
                     t += 10
                 L.append("calls " + " ".join(calls))
+        elif act == "grandparent-reloaded" and mode == "reload" and len(fam.progs) >= 3 and 2 in fam.progs[1]["inh"] \
+                and 1 in fam.progs[0]["inh"]:
+            # p0 inherits p1 inherits p2.  p2 is edited (its variables and functions shift) and loaded again ALONE, so p1 in
+            # memory is still linked with the old p2 block; then p0 is compiled again against that p1
+            fam.progs[2]["grow"] = fam.progs[2].get("grow", 0) + 1
+            L.append("file /%s %s" % (fam.path(2), hx(fam.text(2))))
+            L.append("mtime /%s %d" % (fam.path(2), t))
+            for top_calls, line in (("nosuch_zz:x", "reload %s | %s %s" % (objs[2], objs[0], objs[1])),
+                                    (" ".join(calls), "reload %s | %s %s" % (objs[0], objs[1], objs[2]))):
+                t += 10
+                L.append("now %d" % t)
+                L.append("intern " + " ".join(hx(n) for n in rng.shuffle(names)))
+                L.append("calls " + top_calls)
+                L.append(line)
+                t += 10
+            L.append("calls " + " ".join(calls))
         elif act == "shadow-inc":
             # a header found in the include directory gets a namesake next to the sources (older or newer than everything)
             cand = [nm for nm in sorted(fam.incs) if fam.incs[nm].get("global") and not fam.incs[nm].get("shadowed")]
@@ -790,6 +807,15 @@ def boundary():
             c.id = "b-sys-shadow-inc-%d" % seed
             B.append(c)
             nsh += 1
+    # a grandparent is edited and loaded again alone; its child in memory stays linked with the old block
+    ngp = 0
+    for seed in range(8000, 8040):
+        c = sys_case(E.Rng(seed), "gp%d" % seed, nprog=3, script=["grandparent-reloaded", "nothing"], saves=[True, seed % 2 == 0, False],
+                     mode="reload")
+        if any(l.startswith("calls nosuch_zz") for l in c.lines) and ngp < 6:
+            c.id = "b-sys-grandparent-reloaded-%d" % seed
+            B.append(c)
+            ngp += 1
     # programs without functions (nothing at all / one variable / one string), as top, in the middle and as a parent
     nem = 0
     for seed in range(7900, 7990):
